@@ -1,7 +1,7 @@
 (* C17 -- facts about the tree AS TRANSLATED NOW (Gen/RemodelParams.v), which
-   discharge the guards of Props/C17.v for the repaired code.  Built only when
+   discharge the guards of Props/C17.v for the current code.  Built only when
    the check runs with VERIF_C17_FIXED=1 (the default): it does not compile
-   against a tree without the fix of C17-F4, and that failure is the tie. *)
+   against a tree without fix commit adebd46 (C17-F4), and that failure is the tie. *)
 From Coq Require Import List NArith ZArith Bool.
 From HV Require Import Base.Res Base.Str Model.RemodelJson Gen.RemodelParams Model.Remodel
   Proofs.RemodelProofs Proofs.RemodelNow Props.C17.
